@@ -294,6 +294,7 @@ pub struct Mon {
     fail_pending: unsafe extern "C" fn() -> i32,
     set_delay: unsafe extern "C" fn(u64, i32, i32),
     set_widen: unsafe extern "C" fn(i32, i32, i32),
+    set_shm_widen: unsafe extern "C" fn(i32),
     set_poison: unsafe extern "C" fn(i32),
     eintr_epoll: unsafe extern "C" fn(i32),
     alarm_count: unsafe extern "C" fn() -> i32,
@@ -338,6 +339,7 @@ pub fn mon() -> Option<&'static Mon> {
             fail_pending: f!("ipcmon_fail_pending"),
             set_delay: f!("ipcmon_set_delay"),
             set_widen: f!("ipcmon_set_widen"),
+            set_shm_widen: f!("ipcmon_set_shm_widen"),
             set_poison: f!("ipcmon_set_poison"),
             eintr_epoll: f!("ipcmon_eintr_epoll"),
             alarm_count: f!("ipcmon_alarm_count"),
@@ -376,6 +378,7 @@ impl Mon {
     pub fn fail_pending(&self) -> i32 { unsafe { (self.fail_pending)() } }
     pub fn set_delay(&self, seed: u64, permille: i32, max_us: i32) { unsafe { (self.set_delay)(seed, permille, max_us) } }
     pub fn set_widen(&self, flags: i32, us: i32, minlen: i32) { unsafe { (self.set_widen)(flags, us, minlen) } }
+    pub fn set_shm_widen(&self, us: i32) { unsafe { (self.set_shm_widen)(us) } }
     pub fn set_poison(&self, on: bool) { unsafe { (self.set_poison)(on as i32) } }
     pub fn eintr_epoll(&self, n: i32) { unsafe { (self.eintr_epoll)(n) } }
     pub fn alarm_count(&self) -> i32 { unsafe { (self.alarm_count)() } }
